@@ -519,6 +519,12 @@ func guardFacts(p *Prog, pk *packages.Package, parents map[ast.Node]ast.Node, n 
 			out = append(out, guardFact{pathFact{be, cd.neg, cd.loop}, nil})
 			continue
 		}
+		// `v, ok := helper(…)` with ok known to hold: the helper's second result, when it is a condition on its first
+		// (return x, x != NONE && x >= pr.offset), holds of v
+		if id, isId := cd.e.(*ast.Ident); isId && !cd.neg {
+			guardFactsFromTuple(p, pk, parents, n, id, &out)
+			continue
+		}
 		call, ok := cd.e.(*ast.CallExpr)
 		if !ok || cd.neg {
 			continue
@@ -964,4 +970,119 @@ func rulePoolItem(c *Ctx) {
 	if n < 1 {
 		anchorFail("pool.item: no Attestation literal with bits and signature in package pool")
 	}
+}
+
+// guardFactsFromTuple: okId is a boolean known to hold at n; if it is the second value of `v, ok := helper(args)` (or an
+// if-init of that form) with helper a function of the package whose body ends in `return X, COND` (X an identifier:
+// a local, parameter or named result of the helper; no other return hands back true), the comparisons of COND hold
+// with X standing for v and the helper's parameters and receiver for the arguments.
+func guardFactsFromTuple(p *Prog, pk *packages.Package, parents map[ast.Node]ast.Node, n ast.Node, okId *ast.Ident, out *[]guardFact) {
+	info := pk.TypesInfo
+	okObj := info.ObjectOf(okId)
+	if okObj == nil {
+		return
+	}
+	// the defining assignment: climb to the function body and look for `v, ok := call`
+	var root ast.Node = n
+	for parents[root] != nil {
+		root = parents[root]
+	}
+	var def *ast.AssignStmt
+	ast.Inspect(root, func(k ast.Node) bool {
+		if as, ok := k.(*ast.AssignStmt); ok && len(as.Lhs) == 2 && len(as.Rhs) == 1 {
+			if id, ok := as.Lhs[1].(*ast.Ident); ok && info.ObjectOf(id) == okObj {
+				if def != nil {
+					def = nil
+					return false
+				}
+				def = as
+			}
+		}
+		return true
+	})
+	if def == nil {
+		return
+	}
+	call, ok := ast.Unparen(def.Rhs[0]).(*ast.CallExpr)
+	if !ok {
+		return
+	}
+	f := calleeFunc(info, call)
+	if f == nil || f.Pkg() != pk.Types {
+		return
+	}
+	hd := declOfFunc(pk, f)
+	if hd == nil || hd.Body == nil || len(hd.Body.List) == 0 {
+		return
+	}
+	var rets []*ast.ReturnStmt
+	ast.Inspect(hd.Body, func(k ast.Node) bool {
+		if _, isLit := k.(*ast.FuncLit); isLit {
+			return false
+		}
+		if r, ok := k.(*ast.ReturnStmt); ok {
+			rets = append(rets, r)
+		}
+		return true
+	})
+	var deciding *ast.ReturnStmt
+	for _, r := range rets {
+		if len(r.Results) != 2 {
+			return
+		}
+		if tv, ok := info.Types[r.Results[1]]; ok && tv.Value != nil {
+			if tv.Value.String() == "false" {
+				continue
+			}
+			return // a constant true: nothing is known
+		}
+		if deciding != nil {
+			return
+		}
+		deciding = r
+	}
+	if deciding == nil {
+		return
+	}
+	xid, ok := ast.Unparen(deciding.Results[0]).(*ast.Ident)
+	vid, ok2 := def.Lhs[0].(*ast.Ident)
+	if !ok || !ok2 {
+		return
+	}
+	args := map[types.Object]ast.Expr{info.ObjectOf(xid): vid}
+	i := 0
+	for _, fl := range hd.Type.Params.List {
+		for _, nm := range fl.Names {
+			if i < len(call.Args) {
+				args[info.Defs[nm]] = call.Args[i]
+			}
+			i++
+		}
+	}
+	if hd.Recv != nil && len(hd.Recv.List) == 1 && len(hd.Recv.List[0].Names) == 1 {
+		if sel, ok := ast.Unparen(call.Fun).(*ast.SelectorExpr); ok {
+			args[info.Defs[hd.Recv.List[0].Names[0]]] = sel.X
+		}
+	}
+	// the helper's X must be what it was when COND was evaluated: not assigned after… (it is returned in the same
+	// statement, so it is)
+	var leaves func(e ast.Expr, neg bool)
+	leaves = func(e ast.Expr, neg bool) {
+		switch x := ast.Unparen(e).(type) {
+		case *ast.UnaryExpr:
+			if x.Op == token.NOT {
+				leaves(x.X, !neg)
+			}
+		case *ast.BinaryExpr:
+			switch {
+			case x.Op == token.LAND && !neg, x.Op == token.LOR && neg:
+				leaves(x.X, neg)
+				leaves(x.Y, neg)
+			case x.Op == token.LAND || x.Op == token.LOR:
+			default:
+				*out = append(*out, guardFact{pathFact{x, neg, false}, args})
+			}
+		}
+	}
+	leaves(deciding.Results[1], false)
 }
